@@ -61,6 +61,7 @@ def check(ctx):
     ctx.guard("C15.a NF-FORMULA", "MovingWindow", lambda: check_detector(ctx, "skchange.change_detectors", "MovingWindow", "threshold_scale", "threshold_", ("own", "get_default_threshold")))
     ctx.guard("C15.a NF-FORMULA", "CAPA", lambda: check_capa(ctx))
     ctx.guard("C15.a NF-FORMULA", "mvcapa-families", lambda: check_families(ctx))
+    ctx.guard("C15.a NF-FORMULA", "param-size", lambda: check_param_size(ctx))
     for pkg, name in (("skchange.change_detectors", "SeededBinarySegmentation"), ("skchange.anomaly_detectors", "CircularBinarySegmentation"), ("skchange.change_detectors", "MovingWindow")):
         ctx.guard("C15.b QUANTILE-TUNE", name, lambda: check_tuning(ctx, pkg, name))
     ctx.guard("C15.b QUANTILE-TUNE", "PELT", lambda: check_pelt_tuning(ctx))
@@ -71,6 +72,51 @@ def check(ctx):
     shared_no_stale(ctx, "C15.a NF-FORMULA", [("skchange.change_detectors", "PELT"), ("skchange.change_detectors", "SeededBinarySegmentation"), ("skchange.change_detectors", "MovingWindow"), ("skchange.anomaly_detectors", "CircularBinarySegmentation"), ("skchange.anomaly_detectors", "CAPA"), ("skchange.anomaly_detectors", "MVCAPA")])
     ctx.expect_min("C15.a NF-FORMULA", sum(1 for o in ctx.obs if o.rule == "C15.a NF-FORMULA"), 10)
     ctx.expect_min("C15.c SCALE-LINEAR", sum(1 for o in ctx.obs if o.rule == "C15.c SCALE-LINEAR"), 9)
+
+
+# ------------------------------------------------------------------ parameter counts
+
+# k in CAPA's penalty k + 2 sqrt(k log n) + 2 log n is the number of parameters of the segment model, which the cost
+# reports through get_param_size(p).  The counts of the built-in costs (the model they fit): a mean per variable; a mean
+# and a variance per variable; a mean vector and a SYMMETRIC p x p covariance matrix (p (p + 1) / 2 free entries).
+PARAM_SIZE = {
+    "L2Cost": lambda p: p,
+    "GaussianVarCost": lambda p: 2 * p,
+    "GaussianCovCost": lambda p: p + p * (p + 1) // 2,
+}
+
+
+def check_param_size(ctx):
+    rule = "C15.a NF-FORMULA"
+    costs = ctx.P.registry("skchange.costs", "COSTS")
+    for cls in costs:
+        want = PARAM_SIZE.get(cls.name)
+        f = ctx.P.lookup_method(cls, "get_param_size")
+        if want is None or f is None:
+            ctx.undecided(rule, f"param-size|{cls.name}", cls.module.relpath, "a registered cost without a line in the parameter-count table, or without get_param_size")
+            continue
+        bad = None
+        for pv in (1, 2, 3, 5, 8):
+            ex = new_executor(ctx)
+
+            def thunk(ex, pv=pv):
+                obj = ex.new_object(cls, [], {})
+                return call_method(ex, obj, "get_param_size", Num(NF.const(pv), (), "int"))
+
+            paths = run(ctx, ex, thunk)
+            rets = returns(paths)
+            vals = {(r.value.nf.as_const() if isinstance(r.value, Num) and r.value.nf is not None else None) for r in rets}
+            if len(vals) != 1 or None in vals:
+                ctx.undecided(rule, f"param-size|{cls.name}", f.loc(), f"get_param_size({pv}) is not a constant the engine can evaluate", found=repr(vals))
+                bad = "undecided"
+                break
+            got = vals.pop()
+            if got != want(pv):
+                bad = (pv, got, want(pv))
+                break
+        if bad == "undecided":
+            continue
+        ctx.check(bad is None, rule, f"param-size|{cls.name}", f.loc(), f"{cls.name}.get_param_size(p) is the number of free parameters of its segment model" + ("" if bad is None else f": get_param_size({bad[0]}) = {bad[1]}"), found=("as in the table for p = 1, 2, 3, 5, 8" if bad is None else f"{bad[1]} for p = {bad[0]}"), expected=("" if bad is None else f"{bad[2]}"))
 
 
 # ------------------------------------------------------------------ detectors
